@@ -18,7 +18,7 @@ from pyvc.contracts import Contract, SourceModule
 from pyvc.interp import BUILTIN_EXC, PyRaise
 from pyvc.pack import Pack
 from pyvc.values import (
-    BOOL, INT, STR, BYTES, Atom, Builtin, ClassRef, Closure, GenExp, ObjOf, OneOf, Opaque, OpaqueOf, Opt, PyDict, PyList, SExc, Sym,
+    BOOL, INT, STR, BYTES, Atom, Builtin, ClassRef, Closure, GenExp, ObjOf, OneOf, Opaque, OpaqueOf, Opt, PyDict, PyList, SExc, SObj, Sym,
     Unsupported,
 )
 
@@ -137,7 +137,7 @@ def build():
     # its identifying parts; the digest object is fed by Hasher.hash only, from the finished stream.  A value, or a part of one, that went
     # into the digest directly from here would lose its boundaries: [a, b] and [a + b[:1], b[1:]] would hash alike (seeded change
     # C08-large-bytes-fed-to-digest).  (NumpyHasher.save does feed array buffers directly, together with a stand-in holding class, dtype,
-    # shape and strides; that override is not under contract: numpy hashing is outside C08's universe.)
+    # shape and strides: its own contract follows below.)
     def save_value(interp):
         k = interp.ctx.choose(5, "value-kind")
         if k == 0:
@@ -180,6 +180,91 @@ def build():
                                                                "and ev(0)[1].parts[0] is (obj.__func__.__name__ if is_tag(obj, 'boundmethod') else obj.__name__) "
                                                                "and len(ev(0)[1].parts) == 3 and ev(0)[1].parts[2] is obj.__self__.__class__)",
             "the_digest_is_fed_from_the_finished_stream_only": "n_events('hash.update') == 0",
+        },
+    ))
+
+    # ---- NumpyHasher.save: arrays are the commonest arguments of cached functions (C02: "two calls whose bound argument values differ never
+    # share a cached result").  An array without Python objects is NOT pickled: its bytes go straight into the digest and a stand-in
+    # (class, ("HASHED", dtype, shape, strides)) is pickled in its place.  Everything that tells two arrays apart has to arrive:
+    #   the element bytes - all of them, once, through a C-contiguous view (the array itself, its transpose when Fortran-ordered, a flat copy else)
+    #   dtype and shape (views of one buffer with other dtypes / shapes), the class (ndarray vs subclass; memmap counts as ndarray on request)
+    # Arrays holding Python objects, dtype objects and every other value: see the clauses.  numpy itself is external (attributes / methods
+    # of the array are opaque values whose provenance is recorded).
+    def np_array(interp):
+        ctx = interp.ctx
+        k = ctx.choose(3, "array-class")
+        classes = [("ndarray",), ("ndarray", "memmap"), ("ndarray", "usersubclass")][k]
+        nd = ctx.choose(3, "ndim")
+        shape = [(), (INT.fresh(ctx, "n"),), (INT.fresh(ctx, "n"), INT.fresh(ctx, "m"))][nd]
+        o = Opaque("nparray", None, isinstance=classes, dtype=Opaque("npdtype", None, hasobject=bool(ctx.choose(2, "dtype-has-python-objects"))), shape=shape,
+                   strides=Opaque("strides", None), flags=Opaque("npflags", None, c_contiguous=BOOL.fresh(ctx, "c_contig"), f_contiguous=BOOL.fresh(ctx, "f_contig")))
+        o.attrs["__class__"] = Opaque("pyclass", classes[-1], classname=classes[-1])
+        o.attrs["T"] = Opaque("nparray-derived", None, how="T", of=o)
+        return o
+
+    def np_value(interp):
+        k = interp.ctx.choose(3, "value-kind")
+        if k == 0:
+            return np_array(interp)
+        if k == 1:
+            return Opaque("npdtype", None, isinstance=("dtype",))
+        return Opaque("othervalue", None, isinstance=())
+
+    NPMOD = Opaque("numpy", None, ndarray=Opaque("pyclass", "ndarray", classname="ndarray"), memmap=Opaque("pyclass", "memmap", classname="memmap"),
+                   dtype=Opaque("pyclass", "dtype", classname="dtype"), uint8=Opaque("uint8", None))
+    p.models["nparray.flatten"] = lambda i, r, a, k: Opaque("nparray-derived", None, how="flatten", of=r)
+
+    def np_view(interp, recv, args, kwargs):
+        src, how = (recv.attrs["of"], recv.attrs["how"]) if recv.tag == "nparray-derived" else (recv, "same")
+        return Opaque("bytesview", None, of=src, how=how, as_type=args[0])
+
+    p.models["nparray.view"] = np_view
+    p.models["nparray-derived.view"] = np_view
+    p.models["pickle.dumps"] = lambda i, a, k: Opaque("pickled", None, of=a[0])
+
+    def hasher_base_save(interp, args, kwargs):
+        interp.ctx.events.append(("Hasher.save", args[1]))
+        return None
+
+    def fed(interp):
+        return tuple(e[1] for e in interp.ctx.events if e[0] == "hash.update")
+
+    def whole_array_once(interp, obj):
+        f = fed(interp)
+        if len(f) != 1 or not (isinstance(f[0], Opaque) and f[0].tag == "npbuffer"):
+            return False
+        v = f[0].attrs["of"]
+        if not (isinstance(v, Opaque) and v.tag == "bytesview" and v.attrs["of"] is obj and v.attrs["as_type"] is NPMOD.attrs["uint8"]):
+            return False
+        how, fl = v.attrs["how"], obj.attrs["flags"].attrs
+        # the view handed to the digest must be C-contiguous: the array itself only when it is, its transpose only when it is Fortran-ordered
+        if how == "same":
+            return ops.mk_bool(ops.truth(fl["c_contiguous"]))
+        if how == "T":
+            return ops.mk_bool(ops.truth(fl["f_contiguous"]))
+        return how == "flatten"
+
+    p.spec_funcs["whole_array_once"] = whole_array_once
+    p.spec_funcs["fed"] = fed
+    p.spec_funcs["saved"] = lambda interp: tuple(e[1] for e in interp.ctx.events if e[0] == "Hasher.save")
+    p.spec_funcs["is_array"] = lambda interp, o: isinstance(o, Opaque) and o.tag == "nparray"
+    p.spec_funcs["has_class"] = lambda interp, o, c: c in o.attrs.get("isinstance", ())
+    p.spec_funcs["NP"] = lambda interp: NPMOD
+    BYTES_ARRAY = "is_array(obj) and not obj.dtype.hasobject"
+    p.add(Contract(
+        H, "NumpyHasher.save", props=["C08", "C02", "C06"], globals=dict(glob, pickle=lambda i: Opaque("picklemod", None)),
+        params=dict(self=lambda interp: SObj("NumpyHasher", dict(_hash=Opaque("hashobj", None, algo="md5"), coerce_mmap=bool(interp.ctx.choose(2, "coerce_mmap")), np=NPMOD,
+                                                                   _getbuffer=_Fn(lambda i, a, k: Opaque("npbuffer", None, of=a[0])))),
+                    obj=np_value),
+        calls={"Hasher.save": hasher_base_save, "pickle.dumps": lambda i, a, k: Opaque("pickled", None, of=a[0])},
+        ensures={
+            "all_the_element_bytes_reach_the_digest_once_through_a_contiguous_view": "implies(%s, whole_array_once(obj))" % BYTES_ARRAY,
+            "the_stand_in_carries_dtype_shape_and_strides": "implies(%s, len(saved()) == 1 and saved()[0][1][0] == 'HASHED' and saved()[0][1][1] is obj.dtype "
+                                                            "and saved()[0][1][2] is obj.shape and saved()[0][1][3] is obj.strides)" % BYTES_ARRAY,
+            "the_stand_in_carries_the_class": "implies(%s and not (self.coerce_mmap and has_class(obj, 'memmap')), saved()[0][0] is obj.__class__)" % BYTES_ARRAY,
+            "a_memmap_counts_as_a_plain_array_on_request": "implies(%s and self.coerce_mmap and has_class(obj, 'memmap'), saved()[0][0] is NP().ndarray)" % BYTES_ARRAY,
+            "object_arrays_and_other_values_are_pickled_whole": "implies(not (%s) and not has_class(obj, 'dtype'), len(saved()) == 1 and saved()[0] is obj and len(fed()) == 0)" % BYTES_ARRAY,
+            "dtype_objects_are_hashed_by_their_own_pickle": "implies(has_class(obj, 'dtype'), len(saved()) == 0 and len(fed()) == 2 and fed()[0] == b'_HASHED_DTYPE' and fed()[1].of is obj)",
         },
     ))
 
